@@ -226,31 +226,33 @@ Definition occurrences (e : event) (w : list event) : N := count_if (ev_eqb e) w
 Definition is_perm_ids (n : nat) (ord : list nat) : bool :=
   Nat.eqb (length ord) n && forallb (fun i => count_if (Nat.eqb i) ord =? 1) (seq 0 n).
 
-(* (GS (TS B? TE)* GE)* : 0 outside a group, 1 inside a group, 2 after TS i, 3 after TS i B i *)
-Inductive wstate := WOut | WGroup | WTest (id : nat) | WBody (id : nat).
-Fixpoint balanced_from (n : nat) (st : wstate) (w : list event) : bool :=
+(* (GS (TS B? TE)* GE)* where B names the started test and every test started inside a group segment has the group string of
+   the test the segment was opened with.  grp: group string of a test id. *)
+Inductive wstate := WOut | WGroup (g : nat) | WTest (g id : nat) | WBody (g id : nat).
+Fixpoint balanced_from (n : nat) (grp : nat -> list N) (st : wstate) (w : list event) : bool :=
   match w with
   | [] => match st with WOut => true | _ => false end
   | e :: r =>
       match st, e with
-      | WOut, EGroupStarted g => Nat.ltb g n && balanced_from n WGroup r
-      | WGroup, ETestStarted i => Nat.ltb i n && balanced_from n (WTest i) r
-      | WGroup, EGroupEnded => balanced_from n WOut r
-      | WTest i, EBody j => Nat.eqb i j && balanced_from n (WBody i) r
-      | WTest _, ETestEnded => balanced_from n WGroup r
-      | WBody _, ETestEnded => balanced_from n WGroup r
+      | WOut, EGroupStarted g => Nat.ltb g n && balanced_from n grp (WGroup g) r
+      | WGroup g, ETestStarted i => Nat.ltb i n && bytes_eqb (grp i) (grp g) && balanced_from n grp (WTest g i) r
+      | WGroup _, EGroupEnded => balanced_from n grp WOut r
+      | WTest g i, EBody j => Nat.eqb i j && balanced_from n grp (WBody g i) r
+      | WTest g _, ETestEnded => balanced_from n grp (WGroup g) r
+      | WBody g _, ETestEnded => balanced_from n grp (WGroup g) r
       | _, _ => false
       end
   end.
-Definition word_shape (n : nat) (w : list event) : bool :=
+Definition word_shape (n : nat) (grp : nat -> list N) (w : list event) : bool :=
   match w with
   | ETestsStarted :: r =>
       match rev r with
-      | ETestsEnded :: m => balanced_from n WOut (rev m)
+      | ETestsEnded :: m => balanced_from n grp WOut (rev m)
       | _ => false
       end
   | _ => false
   end.
+Definition group_of (ts : list test) (i : nat) : list N := match nth_error ts i with Some t => t_group t | None => [] end.
 
 Definition cnt_eqb (a b : counters) : bool :=
   (c_tests a =? c_tests b) && (c_run a =? c_run b) && (c_ign a =? c_ign b) && (c_filt a =? c_filt b).
@@ -263,7 +265,7 @@ Definition rep_ok (s : scenario) (r : rep_obs) : bool :=
   let n := length ts in
   is_perm_ids n (r_order r)
   && (s_shuffle s || natlist_eqb (r_order r) (if s_rev s then seq 0 n else rev (seq 0 n)))
-  && word_shape n (r_word r)
+  && word_shape n (group_of ts) (r_word r)
   && forallb (fun t => (occurrences (ETestStarted (t_id t)) (r_word r) =? b2n (selected s t))
                        && (occurrences (EBody (t_id t)) (r_word r) =? b2n (executes s t))) ts
   && (c_tests (r_cnt r) =? N.of_nat n)
